@@ -18,7 +18,7 @@ from icalendar import Calendar, Event, Todo, Timezone, FreeBusy, Component, Alar
 from icalendar.timezone import tzp
 
 IDMAP = {"K1": "Europe/Berlin", "K2": "America/New_York", "U": "Custom/Nowhere",
-         "K3": "Asia/Tokyo", "K4": "Africa/Cairo", "U2": "My Own Zone",
+         "K3": "Asia/Tokyo", "K4": "Africa/Cairo", "U2": "Mitteleurop\u00e4ische Zeit \u4e2d\u6b27",      # (a custom id need not be ASCII)
          # ids the provider resolves under another spelling: the VTIMEZONE that closes the gap must carry THIS spelling
          "K5": "W. Europe Standard Time", "K6": "/America/New_York", "K7": "US/Eastern",
          # UTC named by an explicit TZID parameter (not the Z suffix) is a used id like any other
